@@ -516,7 +516,15 @@ RunResult run_plan(const Plan &p, Stats *st, std::vector<uint64_t> *nt_pairs) {
                 if constexpr (std::is_same_v<Ch, char> || std::is_same_v<Ch, wchar_t>) if (((k.b >> 1) & 7) == 7 && !k.fault) {
                     fw = 1 + (std::streamsize)(k.a % 40);
                     RecBuf<Ch> rb2(cap); std::basic_ostream<Ch> os2(&rb2);
-                    for (std::basic_ostream<Ch> *o : {&os, &os2}) { o->width(fw); o->fill(Ch('#')); o->setf((k.b & 16) ? std::ios_base::left : std::ios_base::right, std::ios_base::adjustfield); }
+                    for (std::basic_ostream<Ch> *o : {&os, &os2}) {
+                        o->width(fw); o->fill(Ch('#'));
+                        switch ((k.b >> 4) & 3) {       // adjustfield as programs leave it: one bit, or - after setf(left) on top of std::right - two
+                        case 0: o->setf(std::ios_base::right, std::ios_base::adjustfield); break;
+                        case 1: o->setf(std::ios_base::left, std::ios_base::adjustfield); break;
+                        case 2: o->setf(std::ios_base::internal, std::ios_base::adjustfield); break;
+                        default: o->setf(std::ios_base::right, std::ios_base::adjustfield); o->setf(std::ios_base::left); break;
+                        }
+                    }
                     os2 << std::basic_string<Ch>(expect.begin(), expect.end()); rb2.flush_area(); padded = rb2.data;
                     if (st) st->probe[PC_OSTREAM_PENDING_WIDTH]++;
                 }
@@ -671,7 +679,7 @@ Plan gen_plan(uint64_t runseed) {
         switch (k.kind) {
         case SK_COOKIE: case SK_STDOUT: k.a = r.below(3) | (r.below(8) << 4) | (r.below(16) << 7); k.b = r.below(4) ? BUFS[r.below(10)] : 1 + r.below(4096); break;
         case SK_EXT8: case SK_EXTW: k.a = r.below(16); k.b = r.below(1 << 19); if (!faults) k.b &= ~2u; break;
-        default: k.a = r.below(4) ? r.below(9) : r.below(65); k.b = r.below(1 << 5); break;
+        default: k.a = r.below(4) ? r.below(9) : r.below(65); k.b = r.below(1 << 6); break;
         }
         if (faults && r.below(2)) k.fault = 1 + r.below(r.below(3) ? 4 : 40);
         p.sinks.push_back(k);
